@@ -3,7 +3,7 @@
 import json, os
 ROOT = os.path.dirname(os.path.dirname(os.path.abspath(__file__)))
 
-HOOK_COMMITS = ["6174218", "9355482"]
+HOOK_COMMITS = ["6174218", "9355482", "ed92598"]
 
 CHECKS = {
  # id: (technique, level text, level note, design ref)
